@@ -18,7 +18,7 @@ ASSUMPTIONS = [
     "non_uniform_savgol: three fixed abscissa patterns (uniform, irregular, clustered), polynomial coefficients symbolic: the output is a linear term in them and each error coefficient must vanish up to 1e-4 relative (the matrix inverse is the real NumPy one on concrete numbers)",
     "rolling_window: concrete length n <= 9 with symbolic values, window lengths 3..8 (odd and even), all five window kinds; window weights are the doubles NumPy computes (a constant is returned within 1e-12 relative)",
 ]
-OUTSIDE = ["cadzow / svd_denoise_npx (LAPACK SVD)", "smooth.lp (FFT)", "non_uniform_savgol on SYMBOLIC abscissae (inverse of a symbolic Vandermonde matrix) and smooth_interpolate_savgol's NaN gap filling (scipy interp1d)", "stack with a header (pandas groupby)"]
+OUTSIDE = ["cadzow / svd_denoise_npx (LAPACK SVD)", "smooth.lp (FFT)", "non_uniform_savgol on SYMBOLIC abscissae (inverse of a symbolic Vandermonde matrix) and smooth_interpolate_savgol's NaN gap filling (scipy interp1d)", "stack headers beyond two numeric vectors"]
 EXPLANATION = "spike times/channels fork through searchsorted and the per-bin masks; counts are ITE sums."
 LEVEL_TEXT = ("For all spike times and channels on the grid z3 decides that every spike of every sorter is attributed to exactly one Venn region (per-sorter region sums equal the sorter's spike count) and that the result does not depend on the chunk size; "
               "stacking returns one row per distinct label in ascending order holding the aggregate of exactly that label's traces with the right fold; the rolling window keeps the input length and returns constants unchanged.")
@@ -38,6 +38,8 @@ def setup():
     stubs.validate_convolve(int(os.environ.get("VERIF_SEED", "0") or 0))
     arrays.patch_module(st)
     arrays.patch_module(v)
+    from symex import pdfacade
+    v.pd = pdfacade.PD            # stack(header=...) groups the header vectors with pandas
     arrays.patch_module(sm)
     del sm.int, sm.float          # smooth.py tests `type(window) is not int`: keep the builtin names there
     arrays.patch_module(num)
@@ -108,6 +110,33 @@ def case_stack(ctx, ntr, agg):
         exp = tot if agg == "sum" else tot / len(members)
         ctx.oblige("row_is_the_aggregate_of_its_label", core.eq(stk[r, 0], exp), detail={"label": g, "members": members, "agg": agg})
         ctx.oblige("fold_is_the_member_count", int(fold[r]) == len(members), detail={"label": g})
+
+
+def case_stack_header(ctx, ntr):
+    """stack with a header dictionary: every header vector is averaged per label, in the same (ascending label) order as the stacked rows and the fold"""
+    import ibldsp.voltage as v
+    labels = [ctx.int(f"w{i}", 0, 2) for i in range(ntr)]
+    data = [ctx.real(f"d{i}") for i in range(ntr)]
+    hx = [ctx.real(f"hx{i}") for i in range(ntr)]
+    header = {"x": arrays.mk(list(hx), tag=np.dtype(float)), "trace": np.arange(ntr, dtype=float)}
+    res = ctx.call("stack", v.stack, arrays.mk(list(data), shape=(ntr, 1), tag=np.dtype(float)), arrays.mk(list(labels), tag=np.dtype(np.int64)), fcn_agg=np.mean, header=header)
+    stk, hstack = res
+    lv = [int(ctx.concretize(core._it(l))) if isinstance(l, core.Sym) else int(l) for l in labels]
+    groups = sorted(set(lv))
+    if not ctx.oblige("stacked_header_has_the_input_keys_and_the_fold", isinstance(hstack, dict) and {"x", "trace", "fold"} <= set(hstack.keys()), detail={"keys": sorted(hstack.keys()) if isinstance(hstack, dict) else str(type(hstack))}):
+        return
+    for r, g in enumerate(groups):
+        members = [i for i in range(ntr) if lv[i] == g]
+        tot = 0
+        for i in members:
+            tot = tot + hx[i]
+        ctx.oblige("header_vector_is_averaged_per_label_in_row_order", len(hstack["x"]) == len(groups) and core.eq(hstack["x"][r] * len(members), tot), detail={"label": g, "row": r, "members": members})
+        ctx.oblige("header_vector_is_averaged_per_label_in_row_order", core.eq(hstack["trace"][r] * len(members), sum(members)), detail={"label": g, "row": r, "key": "trace"})
+        ctx.oblige("fold_is_the_member_count", int(hstack["fold"][r]) == len(members), detail={"label": g})
+        dt = 0
+        for i in members:
+            dt = dt + data[i]
+        ctx.oblige("row_is_the_aggregate_of_its_label", core.eq(stk[r, 0] * len(members), dt), detail={"label": g})
 
 
 def case_stack_nan(ctx, ntr):
@@ -211,6 +240,7 @@ def cases(tier):
     for agg in ("sum", "mean"):
         cs.append(Case(f"stack_{agg}", "case_stack", {"ntr": b["stack_ntr"], "agg": agg}))
     cs.append(Case("stack_nanmean_default", "case_stack_nan", {"ntr": b["stack_ntr"]}))
+    cs.append(Case("stack_with_header", "case_stack_header", {"ntr": b["stack_ntr"]}))
     for window in ("flat", "hanning", "hamming", "bartlett", "blackman"):
         for wl in (3, 4, 5) if tier == "quick" else (3, 4, 5, 6, 7, 8):
             cs.append(Case(f"rolling_{window}_{wl}", "case_rolling", {"n": 7 if tier == "quick" else 9, "wl": wl, "window": window}))
@@ -255,6 +285,22 @@ for chunk in ({params['chunk_a']}, {params['chunk_b']}):
         if tot != len(S[k]): bad.append(('sorter', k, 'region sum', int(tot), 'spikes', len(S[k]), 'chunk', chunk, dict(r)))
 print(S, C, bad)
 if bad: reproduced(str(bad)[:700])
+not_reproduced()
+"""
+    if case.startswith("stack_with_header"):
+        n = params["ntr"]
+        lab = [m[f"w{i}"] for i in range(n)]
+        d = [float(Fraction(str(m[f"d{i}"]))) for i in range(n)]
+        hx = [float(Fraction(str(m[f"hx{i}"]))) for i in range(n)]
+        return f"""
+import ibldsp.voltage as v
+lab = np.array({lab}); d = np.array({d})[:, None]; hx = np.array({hx})
+stk, hs = v.stack(d.copy(), lab, fcn_agg=np.mean, header={{'x': hx.copy(), 'trace': np.arange(len(lab), dtype=float)}})
+g = np.unique(lab)
+ex = np.array([hx[lab == k].mean() for k in g]); et = np.array([np.arange(len(lab))[lab == k].mean() for k in g]); ef = np.array([np.sum(lab == k) for k in g])
+print(hs, ex, et, ef)
+if not np.allclose(np.asarray(hs['x']), ex) or not np.allclose(np.asarray(hs['trace']), et) or not np.array_equal(np.asarray(hs['fold']), ef):
+    reproduced(f"stacked header is not the per-label mean in the order of the stacked rows: x={{np.asarray(hs['x']).tolist()}} expected {{ex.tolist()}} (labels {{lab.tolist()}})")
 not_reproduced()
 """
     if case.startswith("stack_nanmean"):
